@@ -1793,6 +1793,17 @@ namespace gch
         return p;
       }
 
+      // Raw pointers to other object types (eg. from foreign contiguous iterators whose
+      // elements are memcpy-convertible to `value_ty`).
+      template <typename U>
+      static constexpr
+      U *
+      to_address (U *p) noexcept
+      {
+        static_assert (! std::is_function<U>::value, "U is a function type.");
+        return p;
+      }
+
       template <typename Pointer,
         typename std::enable_if<has_ptr_traits_to_address<Pointer>::value>::type * = nullptr>
       static constexpr
